@@ -68,6 +68,12 @@ func payload(size string, compressible bool, seed int64) []byte {
 		n = gzMin + 1
 	case "big":
 		n = 70000 // more than two proxy copy buffers
+	case "mb+1":
+		n = 1<<20 + 1
+	case "cap":
+		n = 10 << 20 // plugins.MaxCompressionBufferSize
+	case "cap+1":
+		n = 10<<20 + 1
 	}
 	b := make([]byte, n)
 	if compressible {
@@ -91,6 +97,10 @@ func scripted(w http.ResponseWriter, r *http.Request) {
 		off := 0
 		for _, o := range ops {
 			switch o.K {
+			case "EH":
+				w.Header().Set("Link", "</style.css>; rel=preload")
+				w.WriteHeader(http.StatusEarlyHints)
+				w.Header().Del("Link")
 			case "WH":
 				w.WriteHeader(o.S)
 			case "W":
@@ -106,6 +116,15 @@ func scripted(w http.ResponseWriter, r *http.Request) {
 				}
 			}
 		}
+	case "head": // size_limit, bodiless response that declares a length
+		var c struct {
+			Declared int `json:"declared"`
+			Status   int `json:"status"`
+		}
+		json.Unmarshal([]byte(r.Header.Get("X-Verif-Case")), &c)
+		w.Header().Set("X-Handler", "yes")
+		w.Header().Set("Content-Length", strconv.Itoa(c.Declared))
+		w.WriteHeader(c.Status)
 	case "count": // size_limit request side
 		n, _ := io.Copy(io.Discard, r.Body)
 		recMu.Lock()
@@ -123,6 +142,7 @@ func scripted(w http.ResponseWriter, r *http.Request) {
 			Pre          bool   `json:"pre"`
 			SetCL        bool   `json:"setcl"`
 			Flush        bool   `json:"flush"`
+			Interim      bool   `json:"interim"`
 		}
 		json.Unmarshal([]byte(r.Header.Get("X-Verif-Case")), &c)
 		seed, _ := strconv.ParseInt(r.Header.Get("X-Verif-Seed"), 10, 64)
@@ -144,6 +164,11 @@ func scripted(w http.ResponseWriter, r *http.Request) {
 			w.Header().Set("Content-Length", strconv.Itoa(len(body)))
 		}
 		w.Header().Set("X-Sent-Digest", digest(body))
+		if c.Interim {
+			w.Header().Set("Link", "</style.css>; rel=preload")
+			w.WriteHeader(http.StatusEarlyHints)
+			w.Header().Del("Link")
+		}
 		if c.Explicit || c.Status != 200 {
 			w.WriteHeader(c.Status)
 		}
@@ -228,6 +253,8 @@ func (c *client) close() {
 	}
 }
 
+var lastInterim = []int{} // 1xx responses that preceded the response roundTrip returned last
+
 // roundTrip writes the raw request and reads one response; returns status, headers, body, read error
 func roundTrip(addr string, raw []byte, method string) (*http.Response, []byte, error) {
 	c := clients[addr]
@@ -249,7 +276,12 @@ func roundTrip(addr string, raw []byte, method string) (*http.Response, []byte, 
 			c.close()
 			continue
 		}
+		lastInterim = []int{}
 		resp, err := http.ReadResponse(c.br, &http.Request{Method: method})
+		for err == nil && resp.StatusCode >= 100 && resp.StatusCode < 200 && resp.StatusCode != 101 {
+			lastInterim = append(lastInterim, resp.StatusCode)
+			resp, err = http.ReadResponse(c.br, &http.Request{Method: method})
+		}
 		if err != nil {
 			c.close()
 			if attempt == 0 {
@@ -322,10 +354,23 @@ func main() {
 			req := fmt.Sprintf("GET /r HTTP/1.1\r\nHost: x\r\nX-Verif-Id: %s\r\nX-Verif-Mode: ops\r\nX-Verif-Ops: %s\r\n\r\n", id, ops)
 			resp, body, rerr := roundTrip(addr, []byte(req), "GET")
 			if resp == nil {
-				o = map[string]any{"status": 0, "len": 0, "prefix": false, "hdr": false, "err": fmt.Sprint(rerr)}
+				o = map[string]any{"status": 0, "len": 0, "prefix": false, "hdr": false, "interim": []int{}, "err": fmt.Sprint(rerr)}
 			} else {
 				o = map[string]any{"status": resp.StatusCode, "len": len(body), "prefix": isPrefixOfAlphabetStream(body) && rerr == nil,
-					"hdr": resp.Header.Get("X-Handler") == "yes" || resp.StatusCode == 413}
+					"hdr": resp.Header.Get("X-Handler") == "yes" || resp.StatusCode == 413, "interim": lastInterim}
+			}
+		case k.Kind == "head":
+			addr := serverFor(srvKey{"size", k.Limit, 0, k.Pos})
+			req := fmt.Sprintf("HEAD /h HTTP/1.1\r\nHost: x\r\nX-Verif-Id: %s\r\nX-Verif-Mode: head\r\nX-Verif-Case: %s\r\n\r\n", id, raw)
+			resp, _, rerr := roundTrip(addr, []byte(req), "HEAD")
+			if resp == nil {
+				o = map[string]any{"status": 0, "cl": -1, "hdr": false, "err": fmt.Sprint(rerr)}
+			} else {
+				cl := -1
+				if v := resp.Header.Get("Content-Length"); v != "" {
+					cl, _ = strconv.Atoi(v)
+				}
+				o = map[string]any{"status": resp.StatusCode, "cl": cl, "hdr": resp.Header.Get("X-Handler") == "yes"}
 			}
 		case k.Kind == "req":
 			addr := serverFor(srvKey{"sizereq", k.Limit, 0, k.Pos})
